@@ -7,7 +7,8 @@
    of divide/multiply_top_and_bottom is combined with, the conjugate / real / imag parts of rationalize_denominator,
    the two substitutions of recippartfrac, the start index / slice / operator of the simplify loops, the divisor of
    as_N_D(monic_denominator), the enumeration order of expandcanonical, the merge operator of poles()).
-2. lake build Lcapy.Props.C11 Lcapy.Props.C11b re-checks every theorem against the regenerated constants; axioms audit.
+2. lake build Lcapy.Props.C11 Lcapy.Props.C11b Lcapy.Props.NonVacuityC11 re-checks every theorem against the regenerated
+   constants and re-applies every theorem to a concrete witness (value theorems over the reals with Real.exp); axioms audit.
 3. Correspondence: the real Lcapy and the Lean model (native driver, exact checked Gaussian rationals)
    format the same generated rational functions; results are compared by exact evaluation at random
    rational points (exp(-T0*var) is an independent indeterminate w, the undefined function an opaque
@@ -1243,7 +1244,7 @@ def run(chk, replay=None):
                                   'isinstance': info['isinstance'], 'unparsed': unp,
                                   'formats': {k: v for k, v in info2.items() if k != 'unparsed'}}
     # ---- 2. proofs
-    broken = chk.lean(['Lcapy/Props/C11.lean', 'Lcapy/Props/C11b.lean'],
+    broken = chk.lean(['Lcapy/Props/C11.lean', 'Lcapy/Props/C11b.lean', 'Lcapy/Props/NonVacuityC11.lean'],
                       helper_files=['Lcapy/Proofs/Poly.lean', 'Lcapy/Proofs/PolyRatfun.lean', 'Lcapy/Proofs/PolyCF.lean',
                                     'Lcapy/Proofs/PolyRatfunFmt.lean', 'Lcapy/Model/Poly.lean', 'Lcapy/Model/Ratfun.lean',
                                     'Lcapy/Model/RatfunFmt.lean', 'Lcapy/Driver/C11.lean'],
